@@ -188,3 +188,35 @@ Definition handle_regex (label : string) (pattern : string) (src : string) : str
           end
       end
   end.
+
+(* ---- ast: reconstructed operand trees of every instruction of every block *)
+Fixpoint sval_json (p : prog) (fuel : nat) (v : sval) : string :=
+  match fuel with
+  | O => jstr "..."
+  | S f =>
+      match v with
+      | SUnknown => jstr "U"
+      | SKnown _ pos args out =>
+          jlist [nat_str (match nth_error p pos with Some i => i_line i | None => 0 end); nat_str out;
+                 jlist (map (sval_json p f) args)]
+      end
+  end.
+
+Definition handle_ast (src : string) : string :=
+  match parse_program src with
+  | Err e => jobj [("err", jstr e)]
+  | Ok p =>
+      match parse_teal p with
+      | Err e => jobj [("err", jstr e)]
+      | Ok t =>
+          jobj (map (fun b =>
+                       (nat_str (b_idx b),
+                        match emulate (t_prog t) (b_ins b) [] with
+                        | None => jobj [("err", jstr "arity")]
+                        | Some ast =>
+                            jobj (map (fun '(k, _, args) =>
+                                         (nat_str (match nth_error (t_prog t) k with Some i => i_line i | None => 0 end),
+                                          jlist (map (sval_json (t_prog t) 12) args))) ast)
+                        end)) (t_blocks t))
+      end
+  end.
